@@ -36,7 +36,7 @@ Definition same_locs (a b : list loc) : bool := subset_loc a b && subset_loc b a
 Definition val_equiv (a b : pyval) : bool := py_eq a b && py_eq b a.
 
 (* model and implementation disagree: on the value of the copy, or on WHICH mutable objects of the original
-   the copy shares.  (The pickle round trip drops undeclared attributes and internal state: its value is
+   the copy shares.  (The pickle round trip drops undeclared attributes: its value is
    compared by the value-level model, Check/C11chk.v; here only the sharing.) *)
 Definition h_mismatch (c : hcase) : bool :=
   h_dom c &&
